@@ -71,4 +71,87 @@ theorem finishFields_absent (f : Field) (fs : List Field) (ss : FState) :
     · simp [finishFields, hd, hr]
     · simp [finishFields, hd, hr]; cases finishFields fs ss <;> rfl
 
+/-- the post-loop pass fails exactly when some required field without default was never set. -/
+theorem finishFields_error_iff (fields : List Field) (st : FState) (hl : st.length = fields.length) :
+    (∃ e, finishFields fields st = .error e) ↔
+      ∃ (i : Nat) (f : Field) (s : GVal × Bool), fields[i]? = some f ∧ st[i]? = some s ∧ f.dflt = none ∧ f.req = true ∧ s.2 = false := by
+  induction fields generalizing st with
+  | nil =>
+    cases st with
+    | nil => simp [finishFields]
+    | cons _ _ => simp at hl
+  | cons f fs ih =>
+    cases st with
+    | nil => simp at hl
+    | cons s ss =>
+      obtain ⟨g, isSet⟩ := s
+      have hl' : ss.length = fs.length := by simpa using hl
+      have ih' := ih ss hl'
+      simp only [finishFields]
+      constructor
+      · intro h
+        cases hd : f.dflt with
+        | some d =>
+          simp only [hd] at h
+          have : ∃ e, finishFields fs ss = .error e := by
+            obtain ⟨e, he⟩ := h
+            cases hf : finishFields fs ss with
+            | error e' => exact ⟨e', rfl⟩
+            | ok r => simp [hf] at he
+          obtain ⟨i, f', s', h1, h2, h3⟩ := ih'.mp this
+          exact ⟨i + 1, f', s', by simp [h1], by simp [h2], h3⟩
+        | none =>
+          simp only [hd] at h
+          by_cases hreq : (f.req && !isSet) = true
+          · simp only [Bool.and_eq_true, Bool.not_eq_true'] at hreq
+            exact ⟨0, f, (g, isSet), by simp, by simp, hd, hreq.1, hreq.2⟩
+          · simp only [hreq, Bool.false_eq_true, if_false] at h
+            have : ∃ e, finishFields fs ss = .error e := by
+              obtain ⟨e, he⟩ := h
+              cases hf : finishFields fs ss with
+              | error e' => exact ⟨e', rfl⟩
+              | ok r => simp [hf] at he
+            obtain ⟨i, f', s', h1, h2, h3⟩ := ih'.mp this
+            exact ⟨i + 1, f', s', by simp [h1], by simp [h2], h3⟩
+      · rintro ⟨i, f', s', h1, h2, h3, h4, h5⟩
+        cases i with
+        | zero =>
+          simp at h1 h2
+          subst h1; subst h2
+          simp only at h5
+          simp [h3, h4, h5]
+        | succ i =>
+          have : ∃ e, finishFields fs ss = .error e :=
+            ih'.mpr ⟨i, f', s', by simpa using h1, by simpa using h2, h3, h4, h5⟩
+          obtain ⟨e, he⟩ := this
+          cases hd : f.dflt with
+          | some d => exact ⟨e, by simp [he]⟩
+          | none =>
+            by_cases hreq : (f.req && !isSet) = true
+            · exact ⟨.bad, by simp [hreq]⟩
+            · exact ⟨e, by simp [hreq, he]⟩
+
+/-- C05: on a struct, the value-path decoder fails iff a nested field value fails to decode, or a
+required field without default was not received (absent, or present only with another wire type),
+or the union arity rule is violated. -/
+theorem fromWire_struct_fails_iff (env : Env) (fuel : Nat) (n : String) (sd : StructDef)
+    (hsd : env.find n = some sd) (wfs : List (UInt16 × WValue)) :
+    (∃ e, fromWire env (fuel + 1) (.struct n) (.struct wfs) = .error e) ↔
+      (∃ e, fromWireFields (fromWire env fuel) sd.fields wfs (initState sd.fields) = .error e) ∨
+      (∃ st, fromWireFields (fromWire env fuel) sd.fields wfs (initState sd.fields) = .ok st ∧
+        ((∃ e, finishFields sd.fields st = .error e) ∨
+         (∃ gs, finishFields sd.fields st = .ok gs ∧ arityOkS sd (countSet gs) = false))) := by
+  simp only [fromWire, Ty.root, hsd]
+  cases hf : fromWireFields (fromWire env fuel) sd.fields wfs (initState sd.fields) with
+  | error e => simp
+  | ok st =>
+    simp only [finishStruct]
+    cases hfin : finishFields sd.fields st with
+    | error e => simp [hfin]
+    | ok gs =>
+      by_cases ha : arityOkS sd (countSet gs) = true
+      · simp [ha, hfin]
+      · have ha' : arityOkS sd (countSet gs) = false := by simpa using ha
+        simp [ha', hfin]
+
 end ThriftVerif.Schema
